@@ -173,6 +173,8 @@ fn replace_html_char<'a>(ch: char) -> Cow<'a, str> {
         '&' => Cow::from("&amp;"),
         '\'' => Cow::from("&#39;"),
         '"' => Cow::from("&quot;"),
+        // a literal carriage return is turned into a line feed by XML parsers
+        '\r' => Cow::from("&#13;"),
         // characters that can not appear in an XML document are dropped
         '\u{0}'..='\u{8}'
         | '\u{b}'
